@@ -516,7 +516,7 @@ func Main(cfg Config, build func(tier string) []Scenario) {
 	if *deadlineS == 0 {
 		*deadlineS = 240
 		if *tier == "thorough" {
-			*deadlineS = 2400
+			*deadlineS = 1500
 		}
 	}
 	seed, _ := strconv.Atoi(os.Getenv("VERIF_SEED"))
